@@ -107,6 +107,11 @@ class Report:
         rev = [o for o in self.obs if o.status == "reviewed"]
         out_dir = os.path.join(VERIF, "out")
         os.makedirs(out_dir, exist_ok=True)
+        # developer aid (tools/unused_reviewed.py): record which reviewed keys this run relied on
+        if os.environ.get("JV_USED_OUT"):
+            with open(os.environ["JV_USED_OUT"], "a") as fh:
+                for o in rev:
+                    fh.write(o.key + "\n")
         for f in os.listdir(out_dir):
             if f.startswith("violation-%s-" % self.prop):
                 os.unlink(os.path.join(out_dir, f))
